@@ -125,6 +125,33 @@ func stubCertVerify(c *x509.Certificate, opts x509.VerifyOptions) ([][]*x509.Cer
 	return nil, errors.New("x509: certificate signed by unknown authority")
 }
 
+// Contract of Certificate.CheckSignatureFrom (documented): nil iff the
+// signature on c was made by parent's key and parent may sign certificates.
+// In the logical chain certificate i is signed by certificate i+1 (the root by itself).
+//
+//verif:stub (*crypto/x509.Certificate).CheckSignatureFrom
+func stubCheckSignatureFrom(c, parent *x509.Certificate) error {
+	i, j := c13Index(c), c13Index(parent)
+	if i < 0 || j < 0 || !(j == i+1 || (i == 2 && j == 2)) {
+		return errors.New("x509: (model) signature is not by this certificate")
+	}
+	if !c13.isCA[j] {
+		return x509.ConstraintViolationError{}
+	}
+	return nil
+}
+
+// Contract of Certificate.VerifyHostname (documented): nil iff the name is one
+// the certificate is valid for; only the leaf carries the MX host name.
+//
+//verif:stub (*crypto/x509.Certificate).VerifyHostname
+func stubVerifyHostname(c *x509.Certificate, h string) error {
+	if c13Index(c) == 0 && h == c13MX && c13.nameOK {
+		return nil
+	}
+	return x509.HostnameError{Certificate: c, Host: h}
+}
+
 const c13MX = "mx.example.org"
 
 var c13Root *x509.Certificate // the logical root of the last real chain
